@@ -44,7 +44,11 @@ def build(ctx, rule):
     # the rules read the mutators in normal form: private helpers of the class inlined, constant loops unrolled
     from ..core import tail_inlined, unroll_const_loops
 
+    from ..core import detuple
+
     g.raw = {k: getattr(g, k) for k in ("add_edge", "remove_edge", "remove_node", "add_node", "read_graph", "write_gfa")}
+    for k in ("add_edge", "remove_edge", "remove_node", "add_node", "read_graph", "write_gfa"):
+        setattr(g, k, detuple(repo, getattr(g, k)))  # module-level namedtuples (an Edge record ...) read as plain tuples
     g.read_graph = tail_inlined(repo, g.read_graph, keep=lambda c: c.name in ("add_edge", "add_node"))
     from ..core import desugar_ifexp, fold_consts, hoist_calls
 
@@ -52,7 +56,7 @@ def build(ctx, rule):
     from ..core import inline_access_aliases
 
     g.write_gfa = inline_access_aliases(desugar_ifexp(fold_consts(tail_inlined(repo, hoist_calls(repo, g.write_gfa), keep=lambda c: not c.name.startswith("_") or c.name.startswith("__")))))
-    for k in ("remove_edge", "remove_node", "add_node"):
+    for k in ("remove_edge", "remove_node", "add_node", "add_edge"):
         setattr(g, k, unroll_const_loops(tail_inlined(repo, getattr(g, k), keep=lambda c: c.name in ("add_edge", "remove_edge", "add_node", "remove_node") or c.name.startswith(("add_from_", "remove_from_")))))
     return g
 
